@@ -173,13 +173,15 @@ Definition canonical (m : msg) : msg :=
 Definition digest (b : bytes) : Z * Z := (blen b, fold_left (fun a x => Z.land (a * 257 + x + 1) 1073741823) b 0).
 Inductive bview := BFull (b : bytes) | BDigest (len hash : Z).
 Definition bv (b : bytes) : bview := if blen b <=? 64 then BFull b else let d := digest b in BDigest (fst d) (snd d).
+(* integers above 2^200 are shown as [0; log2 n; n mod 1000000007] *)
+Definition zv (n : Z) : list Z := if n <? 2 ^ 200 then [n] else [0; Z.log2 n; n mod 1000000007].
 Definition optview (o : option_) : Z * Z * list Z * bview :=
   match snd o with
   | VOpaque b => (fst o, 0, [], bv b)
   | VString s => (fst o, 1, [], bv s)
-  | VUint n => (fst o, 2, [n], BFull [])
-  | VBlock num more szx => (fst o, 3, [num; if more then 1 else 0; szx], BFull [])
-  | VContentFormat n => (fst o, 4, [n], BFull [])
+  | VUint n => (fst o, 2, zv n, BFull [])
+  | VBlock num more szx => (fst o, 3, zv num ++ [if more then 1 else 0; szx], BFull [])
+  | VContentFormat n => (fst o, 4, zv n, BFull [])
   end.
 Definition msgview (m : msg) :=
   (m_type m, m_code m, m_mid m, bv (m_token m), map optview (option_list (m_opt m)), bv (m_payload m)).
